@@ -2,10 +2,13 @@
     read it.  C12_wellformed / C12_standard_reader: the encoding of every
     proto-mode struct is a well-formed standard protobuf message (a grammar with
     wire types 0, 1, 2, 5 only and exact lengths) consisting of exactly the
-    expected fields, and a reader for the standard format accepts it.  PARTIAL:
-    the round trip in that mode is proved only where C01's theorem applies (not
-    the repeated / map-entry forms: correspondence); see C12_nested_refuted (D12). *)
-From Plenc Require Import Base Varint Wire JsonAny Codec SizeProofs Registry CorrCore ProtoProofs PbWf.
+    expected fields, and a reader for the standard format accepts it;
+    C12_roundtrip_partial: such data round-trips in that mode (C01's theorem
+    covers the repeated / map-entry forms as struct fields and the Timestamp
+    form).  PARTIAL: repeated forms nested directly inside one another do not
+    round-trip - C12_nested_refuted (finding D12); scalar slices over pointer /
+    null elements and the JSON / BQ codecs by the correspondence. *)
+From Plenc Require Import Base Varint Wire JsonAny Codec SizeProofs Registry CorrCore ProtoProofs PbWf RoundTrip RoundTripZero.
 Open Scope N_scope.
 
 Theorem C12_wire_types : forall c, proto_codec c = true ->
@@ -71,6 +74,18 @@ Example C12_ex :
   pb_parse 100 (enc c v []) =
     Some [PBF 1 2 [97]; PBF 1 2 []; PBF 2 2 [2; 1]; PBF 3 2 [8; 5; 16; 7]; PBF 4 2 [10; 1; 107; 16; 3]].
 Proof. vm_compute. split; reflexivity. Qed.
+
+(** data written in the proto-compatible mode round-trips in that mode: for
+    every struct of C01's fragment (repeated fields, proto maps, Timestamp times
+    included) decoding the encoding into a fresh value gives the value back *)
+Theorem C12_roundtrip_partial : forall nm n fs v,
+  rt_ok (CStruct nm n fs) -> wfv (CStruct nm n fs) v -> fits (CStruct nm n fs) v -> canon (CStruct nm n fs) v ->
+  unmarshal (CStruct nm n fs) (marshal (CStruct nm n fs) [] v) (zero (CStruct nm n fs)) = Ok v.
+Proof.
+  intros nm n fs v Hok Hw Hf Hc. unfold unmarshal, marshal. cbn [omit app].
+  pose proof (roundtrip_fresh (CStruct nm n fs) v Hok I Hw Hf Hc eq_refl) as H. cbn [wire] in *. rewrite H. reflexivity.
+Qed.
+Print Assumptions C12_roundtrip_partial.
 
 (** the full round trip is false where a repeated field is nested inside
     another (known finding D12) *)
